@@ -883,21 +883,38 @@ fn run_regen() -> String {
         let lock = Path::new(env!("CARGO_MANIFEST_DIR")).join("Cargo.lock");
         std::fs::copy(lock, scratch.join("Cargo.lock")).unwrap();
     }
-    let out = std::process::Command::new("cargo")
-        .args(["run", "-p", "codegen", "--offline", "--quiet"])
-        .current_dir(&scratch)
-        .env("CARGO_TARGET_DIR", scratch.join("target"))
-        .env("CARGO_NET_OFFLINE", "true")
-        .env_remove("RUSTFLAGS")
-        .output();
-    match out {
-        Err(e) => return format!("regen-failed {}", tok(&e.to_string())),
-        Ok(o) if !o.status.success() => {
-            let err = String::from_utf8_lossy(&o.stderr);
-            let last = err.lines().rev().find(|l| !l.trim().is_empty()).unwrap_or("");
-            return format!("regen-failed {}", hex(last.as_bytes()));
+    // The generator run is a child `cargo run`; a transient failure of that process (killed,
+    // resource hiccup — seen once as "exit != 0 with empty stderr" on a loaded machine) must not be
+    // reported as a property violation, so it is retried before giving up.
+    let mut failure = String::new();
+    let mut ok = false;
+    for attempt in 0..3 {
+        if attempt > 0 {
+            std::thread::sleep(std::time::Duration::from_secs(2));
         }
-        Ok(_) => {}
+        let out = std::process::Command::new("cargo")
+            .args(["run", "-p", "codegen", "--offline", "--quiet"])
+            .current_dir(&scratch)
+            .stdin(std::process::Stdio::null())
+            .env("CARGO_TARGET_DIR", scratch.join("target"))
+            .env("CARGO_NET_OFFLINE", "true")
+            .env_remove("RUSTFLAGS")
+            .output();
+        match out {
+            Err(e) => failure = format!("regen-failed {}", tok(&e.to_string())),
+            Ok(o) if !o.status.success() => {
+                let err = String::from_utf8_lossy(&o.stderr);
+                let last = err.lines().rev().find(|l| !l.trim().is_empty()).unwrap_or("");
+                failure = format!("regen-failed {} status{}", hex(last.as_bytes()), o.status.code().map(|c| c.to_string()).unwrap_or_else(|| "signal".into()));
+            }
+            Ok(_) => {
+                ok = true;
+                break;
+            }
+        }
+    }
+    if !ok {
+        return failure;
     }
     let mut res: Vec<String> = Vec::new();
     for c in GEN_CRATES {
